@@ -22,12 +22,17 @@ CHECKS["C20"] = dict(
          "the tolerances are fixed by the first design and never change afterwards, the tolerance any later operation sees is one "
          "proposed by the history or by itself, and a tolerance-reading operation (touch / overlap tests, abstract form for any body) "
          "on an input that is Robust for the interval of proposed tolerances answers exactly as in a fresh process, for every history "
-         "(induction over the operation list). The ROBDD-store half is C07's store theorems. (2) The observation the property names, "
+         "(induction over the operation list). The ROBDD-store half is C07's store theorems (encoding_history_indep); the legaliser's "
+         "module-level registers (slack, name registry, debug mask) are a second state machine (FV/Model/Registers.lean): no operation "
+         "ever writes the name registry, and any sequence that installs its own slack before reading it — every model construction — "
+         "gives the results of a fresh process after any history (legal_build_history_indep); region decomposition verdicts are "
+         "history-independent for band-free dies (die_verdict_any_history). (2) The observation the property names, "
          "run on every check: digest of a probed operation in a fresh forked interpreter vs after a random history on unrelated "
          "designs within x1000 in scale (6 operation kinds), plus bit-exact correspondence of the observed tolerance state with the "
-         "model. The unchanged code violates the property for non-Robust designs (known finding C20-sticky-tolerance-...); the "
+         "model, random register-operation sequences on the real expression_tree module vs the register model, and a footprint clause "
+         "(name registry, debug mask, shared default-argument objects of Ineq/Strop unchanged after every operation). The unchanged code violates the property for non-Robust designs (known finding C20-sticky-tolerance-...); the "
          "theorems carry exactly that hypothesis, so the claim is partial.",
-    note="Trusted: Lean kernel + Mathlib (standard axioms); the model covers only the Rectangle tolerance state — absence of any other "
+    note="Trusted: Lean kernel + Mathlib (standard axioms); the models cover the Rectangle tolerance state, the ROBDD store and the legaliser registers — absence of any other "
          "leaking state is established by the differential runs, not proved; sqrt enters as a monotone parameter; exact arithmetic.",
     technique="Lean 4 invariant over operation histories (sticky tolerance state) + fresh-fork vs after-history differential runs",
     design="§7 C20")
@@ -91,15 +96,25 @@ CHECKS["C08"] = dict(
 CHECKS["C17"] = dict(
     text="Partial with respect to floating point, by nature. Machine-checked (Lean 4, Mathlib real analysis): over the reals the "
          "repaired disc-overlap function never fails, is symmetric, lies in [0, pi*min(r)^2], equals the closed-form lens area between "
-         "the tangencies, 0 when far apart and the smaller disc when nested; the guard really puts both acos arguments in [-1,1] "
+         "the tangencies (the factored numerators (a-b)(a+b)+e^2 of the repaired code are the textbook a^2+e^2-b^2: num_factored), 0 when "
+         "far apart and the smaller disc when nested; the guard really puts both acos arguments in [-1,1] "
          "(stated explicitly because Mathlib's arccos is total by clamping). For EVERY rounding behaviour (any linearly ordered carrier "
-         "with arbitrary arithmetic) acos only ever receives a clamped argument, the only possible error is a zero divisor and the "
-         "result lies in [0, small]. Binary64 totality, symmetry, bounds and the 1e-5*r^2 accuracy are decided by directed search "
-         "(both tangencies within +-8 ulp, equal / concentric discs, scales 1e-6..1e6) against 60-digit mpmath; the Float model agrees "
-         "with the Python bit for bit.",
-    note="libm (sqrt, acos, sin) executed, not proved; NaN/inf and radii above ~1.3e154 (overflow of **) outside the property; float "
-         "accuracy searched (judged for max r >= 1e-150), not proved; two repairs committed first (clamp; rescaling against underflow of "
-         "2*r*d found by the independent audit) — with the second, total_structural is unconditional for positive radii.",
+         "with arbitrary arithmetic and an arbitrary total hypot) acos only ever receives a clamped argument, every divisor is positive or "
+         "tested against zero, so the function returns a value for all centres and positive radii (total_structural has no hypothesis "
+         "on the distance any more) and the result lies in [0, small]; both structural theorems are applied in examples. "
+         "Binary64 totality, symmetry, bounds and the 1e-5*r^2 accuracy are decided by directed search "
+         "(both tangencies within +-8 ulp, equal / concentric discs, nearly equal radii (relative gap 1e-12..1e-3) next to either "
+         "tangency, centres up to 8e307 apart, scales 1e-160..1e150) against 60-digit mpmath; the Float model agrees "
+         "with the Python bit for bit (float_drift 0 on 900 000 thorough cases).",
+    note="libm (pow, acos, sin) executed, not proved; CPython 3.12's math.hypot (math_hypot + vector_norm) is transcribed by hand into the "
+         "model as Disc.pyHypot and is part of the trusted model: its bit-equality with math.hypot is observed on every correspondence "
+         "case, not proved. Centre coordinates are unrestricted (any finite doubles); 'never fails' needs the smaller radius <= ~1.34e154 "
+         "(min(r1, r2)**2 raises OverflowError beyond; such a disc's area is not a double), generated radii <= 1e150; NaN/inf outside the "
+         "property; float accuracy searched (judged for max r >= 1e-150), not proved. Four repairs committed first: 45af9c2 (acos "
+         "arguments and result clamped), b024d67 (lengths rescaled by the larger radius against underflow of 2*r*d, found by the "
+         "independent audit), 402b6dc (difference of squares factored in the acos arguments: the error was 1e-4*r^2 for nearly equal "
+         "radii next to internal tangency, found by audit 3) and eb032db (centre distance by math.hypot: Point.norm raised "
+         "OverflowError for centres more than 1.3e154 apart, audit 3).",
     technique="Lean 4 real-analysis proof + structural totality proof for all roundings + bit-exact model correspondence + directed float search",
     design="§7 C17")
 CHECKS["C09"] = dict(
